@@ -169,7 +169,10 @@ public:
     void on_deadlock(const std::vector<vs::ThreadView> &) override {
         out().raw("\"e\":\"Deadlock\",\"t\":0,\"op\":\"\",\"p\":[],\"id\":0,\"v\":0,\"res\":0");
     }
-    void on_abort(int) override { out().flush(); }
+    void on_abort(int) override {
+        for (auto &r : vs::race_reports()) out().raw("\"e\":\"Race\"," + r);
+        out().flush();
+    }
     void too_long() override { out().raw("\"e\":\"TooLong\",\"t\":0,\"op\":\"\",\"p\":[],\"id\":0,\"v\":0,\"res\":0"); }
 };
 
@@ -195,6 +198,7 @@ void run_exec(const Execution &ex) {
     ctl.pct = d > 0;
     for (int i = 0; i < d; ++i) ctl.change_at.push_back(1 + ctl.rng.below((uint32_t) ex.cfg.num("len", 80)));
     vs::run(ctl, scenario);
+    for (auto &r : vs::race_reports()) out().raw("\"e\":\"Race\"," + r);
     g_keys = nullptr;
 }
 
